@@ -4512,10 +4512,11 @@ class LocationMatcher(SectionMatcher):
             ignore = section.get("ignore_parents", None)
             if ignore is not None:
                 ignore = ui.bool_from_string(ignore)
-            if ignore:
-                break
             # Finally, we have a valid section
             yield self.store, section
+            if ignore:
+                # The section that asks to ignore its parents is itself valid
+                break
 
 
 # FIXME: _shared_stores should be an attribute of a library state once a
